@@ -43,7 +43,7 @@ def classify(stmts, fname):
             out.append("SCheckReady")
         elif txt == "clean_up, default_result = calc_clean_up_default_res(self, clean_up, allow_incomplete)":
             out.append("SDecide")
-        elif txt == "settings = self.load_info()":
+        elif txt in ("settings = self.load_info()", "sown_constants = self.load_info().get('constants') or {}"):
             out.append("SLoadInfo")
         elif isinstance(s, ast.If) and ast.unparse(s.test) == "parse" and not s.orelse and all(
                 isinstance(b, ast.Assign) and ast.unparse(b.value).startswith(("parse_constants(", "parse_attrs("))
@@ -209,7 +209,8 @@ def generate(repo):
     # ---- description wiring: the term for combos / cases at the batch planner, the saved settings, the runner
     prepare = find_function(tree, "Crop.prepare")
     pc = find_call(prepare, "self.save_info")
-    if {k.arg: ast.unparse(k.value) for k in pc.keywords} != {"combos": "combos", "cases": "cases", "fn_args": "fn_args"} \
+    if {k.arg: ast.unparse(k.value) for k in pc.keywords} != {"combos": "combos", "cases": "cases", "fn_args": "fn_args",
+                                                            "constants": "constants"} \
             or any(isinstance(n, ast.Assign) and ast.unparse(n.targets[0]) in ("combos", "cases") for n in ast.walk(prepare)):
         raise Refused(prepare, "prepare does not hand combos / cases / fn_args to save_info unchanged")
     for name, fn, runner in (("gen_sow_combos_sites", sow_combos, "combo_runner_core"),
